@@ -122,3 +122,33 @@ def replay_tier(pid, exclusions=True):
 def _hash_numeric_tower(pid, facet, spec, label):
     return pid == "C03" and facet == "hash_numeric_tower"\
         and label == "C03:hash-numeric-tower"
+
+
+def _c13(pid, facet, spec):
+    return pid == "C13" and facet in ("export", "roundtrip") and "d" in spec
+
+
+@matcher("to-tk-classical-then-register")
+def _k1(pid, facet, spec, label):
+    from harness.props import c13
+    return _c13(pid, facet, spec) and c13.k1_classical_then_register(spec["d"])
+
+
+@matcher("to-tk-bits-prep-position")
+def _k6(pid, facet, spec, label):
+    from harness.props import c13
+    return _c13(pid, facet, spec) and c13.k6_bits_after_bits(spec["d"])
+
+
+@matcher("from-tk-post-selection-index")
+def _k7(pid, facet, spec, label):
+    from harness.props import c13
+    return pid == "C13" and facet == "roundtrip"\
+        and c13.k7_post_selection_index(spec["d"])
+
+
+@matcher("controlled-y-layout")
+def _k5(pid, facet, spec, label):
+    return _c13(pid, facet, spec) and any(
+        b.get("g") == "C" and b["a"][0]["g"] == "Y"
+        for b, _ in spec["d"]["layers"])
